@@ -396,7 +396,7 @@ def cellMaxLen : Cell F → Nat
 def charLength (typ : Str) (data : List (Cell F)) : Except String Nat :=
   match parseNat (lastBracket typ) with
   | some n => .ok n
-  | none => if data.isEmpty then .error "ValueError" else .ok ((data.map cellMaxLen).foldl max 0)
+  | none => if data.isEmpty then .ok 1 else .ok ((data.map cellMaxLen).foldl max 0)   -- `max(..., default=1)`
 
 /-- `re.split(r',\s*', body.strip())` -/
 def splitCommaAux : Str → Str → List Str
